@@ -10,7 +10,7 @@
    call is new), not from any hidden state. *)
 From Coq Require Import List Arith Bool ZArith QArith.
 Import ListNotations.
-From SV Require Import C09.Tracker.
+From SV Require Import C09.Tracker C09.TrackerX.
 
 Definition owners := list (nat * nat).          (* (animal, track id) *)
 
@@ -80,6 +80,21 @@ Fixpoint trace10 (cfg : config) (st : state) (own : owners) (h : list frame)
       (st, own, f, snd so) ::
       match snd so with
       | Ok _ => trace10 cfg (fst so) (owners_after own (length (cur st)) (snd so)) r
+      | Raise _ => []
+      end
+  end.
+
+(* the same for the widened tracker C09/TrackerX.v (max_tracks, name checks,
+   the repairs of F4cap / F4iv as switches): executed calls of `xstep` *)
+Fixpoint xtrace10 (X : xconfig) (st : state) (own : owners) (h : list frame)
+  : list (state * owners * frame * outcome) :=
+  match h with
+  | [] => []
+  | f :: r =>
+      let so := xstep X st f in
+      (st, own, f, snd so) ::
+      match snd so with
+      | Ok _ => xtrace10 X (fst so) (owners_after own (length (cur st)) (snd so)) r
       | Raise _ => []
       end
   end.
